@@ -13,6 +13,7 @@ CONSTANTS
   Burst = 3
   StoreCap = 2
   EntryBurst = 2
+  BigQs = {}
   MaxOps = 14
   MaxPend = 2
   MaxAge = 2
@@ -24,6 +25,7 @@ CONSTANTS
   EchoCached = FALSE
   ReuseEvicted = FALSE
   SharedKey = FALSE
+  ChargeBeforeFit = FALSE
 INIT Init
 NEXT Next
 CHECK_DEADLOCK FALSE
